@@ -48,7 +48,10 @@ STATEMENT_STATUS = {
     "C01_bufsize_indep / C01_offset_indep / C01_offset_indep_ws": "proved, FULL (every byte string, conformant or damaged, "
         "odd hex included): the objects read do not depend on the read-buffer size, nor on a token-free prefix (white "
         "space of every SPC byte, complete comments) in front; checked on the implementation for damaged spellings too",
-    "C01_stream_object_spelled_partial": "proved: the same for the spelled family (ObjSpelling head + spelled dictionary, every "
+    "C01_stream_object_spelled / C01_tree_complete": "proved, FULL for the spelled family: no hypothesis on the scanner state "
+        "left - Complete (modeAfter head) is proved by the mode-tracking companion StreamSeam.unit_complete; getobjS on head + "
+        "ws + stream + LF|CRLF + any payload + tail + endstream endobj = the stream object, every buffer size",
+    "C01_stream_object_spelled_partial": "superseded by C01_stream_object_spelled (kept); proved: the same for the spelled family (ObjSpelling head + spelled dictionary, every "
         "spelling freedom); the token hypothesis is discharged by lex_tree (StreamSeam.head_tokens); partial: only the "
         "Complete-scanner-state hypothesis after the dictionary remains (checked: always main or wclose on 1200 objects/run)",
     "C01_stream_object_partial": "proved at every buffer size: objid gen obj <<dict with direct correct /Length>> + white space "
